@@ -3,6 +3,7 @@
 #include <functional>
 
 #include "place_detailed/row_legalizer.hpp"
+#include <memory>
 #include "vf.hpp"
 
 using namespace coloquinte;
@@ -65,9 +66,12 @@ static std::string seqStr(int b, int e, const std::vector<int> &w, const std::ve
 static bool checkSequence(int b, int e, const std::vector<int> &w, const std::vector<int> &t, bool useBrute, CaseResult &r, unsigned long long queryMask = ~0ull) {
   int n = (int)w.size();
   RowLegalizer a(b, e), q(b, e);  // a: with queries, q: never queried
-  long long sumA = 0, sumQ = 0;
+  long long sumA = 0, sumQ = 0, sumC = 0;
+  std::unique_ptr<RowLegalizer> cpy;  // a copy of 'a' taken half way: an independent legalizer with the same future
   for (int i = 0; i < n; ++i) {
     bool last = i + 1 == n;
+    if (n >= 2 && i == n / 2) { cpy.reset(new RowLegalizer(a)); sumC = sumA; }
+    if (cpy) sumC += cpy->push(w[i], t[i]);
     if (last || (queryMask >> (i & 63) & 1)) {
       long long c1 = a.getCost(w[i], t[i]);
       long long c1b = a.getCost(w[i], t[i]);
@@ -81,6 +85,7 @@ static bool checkSequence(int b, int e, const std::vector<int> &w, const std::ve
     sumQ += q.push(w[i], t[i]);
   }
   std::vector<int> pa = a.getPlacement(), pq = q.getPlacement();
+  if (cpy && (cpy->getPlacement() != pa || sumC != sumA)) { r.fail("C12:copy-of-the-legalizer-diverges", "a copy taken after " + std::to_string(n / 2) + " insertions ends with another placement or other costs: " + seqStr(b, e, w, t)); return false; }
   if (pa != pq || sumA != sumQ) { r.fail("C12:query-changed-state", "placement or reported costs differ between a queried and an unqueried legalizer: " + seqStr(b, e, w, t)); return false; }
   try { a.check(); } catch (const std::exception &ex) { r.fail("C12:check-failed", std::string(ex.what()) + ": " + seqStr(b, e, w, t)); return false; }
   if ((int)pa.size() != n) { r.fail("C12:placement-size", seqStr(b, e, w, t)); return false; }
